@@ -111,14 +111,17 @@ class _PropertyFailed(Exception):
 
 # --------------------------------------------------------------------------- compile / run
 class Toolchain:
-    def __init__(self, compiler, std):
-        self.compiler, self.std = compiler, std
+    def __init__(self, compiler, std, cheap=False):
+        # cheap: -O0 without sanitizers; only used for shrink candidates of failures that are FAIL lines
+        # (not sanitizer aborts); the shrunk program is always confirmed with the real flags afterwards
+        self.compiler, self.std, self.cheap = compiler, std, cheap
 
     def key(self):
-        return "%s/%s" % (self.compiler, self.std)
+        return "%s/%s%s" % (self.compiler, self.std, "/cheap" if self.cheap else "")
 
     def cmd(self, src, exe):
-        return [self.compiler, "-std=" + self.std] + BASE_FLAGS + ["-I" + os.path.join(REPO, "include"), "-I" + HERE, src, "-o", exe]
+        flags = ["-O0", "-DTROMPELOEIL_SANITY_CHECKS"] if self.cheap else BASE_FLAGS
+        return [self.compiler, "-std=" + self.std] + flags + ["-I" + os.path.join(REPO, "include"), "-I" + HERE, src, "-o", exe]
 
 
 def parse_output(text, nfun):
@@ -340,32 +343,46 @@ class Engine:
 
     # ----- failures
     def shrink(self, tu, budget):
-        """Pass 2: repeat the TU's Hypothesis run with shrinking; the test answers from the verdict cache and
-        compiles unknown function variants alone.  Returns the minimal failing function spec (or None)."""
+        """Pass 2: repeat the TU's Hypothesis run with shrinking.  The test function answers from the verdict
+        cache: a TU that still contains a function known to fail fails without compiling anything (so
+        simplifying the other functions is free); otherwise the unknown function variants are re-emitted alone
+        in 1-function TUs and compiled on demand.  Returns the minimal failing function spec (or None)."""
         tc = tu["tc"]
+        known = [(s, self.verdict(s, tc)) for s in tu["fns"]]
+        only_fail_lines = all(v["status"] != "abort" for _, v in known if v)
+        stc = Toolchain(tc.compiler, tc.std, cheap=True) if only_fail_lines else tc
+        if stc is not tc:
+            for s, v in known:
+                if v:
+                    self.cache.setdefault((G.canon(s), stc.key()), v)
         deadline = time.time() + budget
         state = dict(last=None, compiled=0)
 
-        def test(fns):
-            unknown = []
-            seen = set()
+        def failing(fns):
             for s in fns:
-                k = G.canon(s)
-                if k in seen:
-                    continue
-                seen.add(k)
-                if (k, tc.key()) not in self.cache:
-                    unknown.append(s)
-            if unknown:
-                if time.time() > deadline:
-                    return          # budget exhausted: unknown variants count as passing, shrinking stops here
-                state["compiled"] += len(unknown)
-                self.check_singles(unknown, tc, "shr%d" % tu["idx"])
-            for s in fns:
-                v = self.verdict(s, tc)
+                v = self.verdict(s, stc)
                 if v and v["status"] in ("fail", "abort"):
-                    state["last"] = s
-                    raise _PropertyFailed("function fails: " + v["detail"])
+                    return s, v
+            return None
+
+        def test(fns):
+            f = failing(fns)
+            if f is None:
+                unknown, seen = [], set()
+                for s in fns:
+                    k = G.canon(s)
+                    if k not in seen and (k, stc.key()) not in self.cache:
+                        seen.add(k)
+                        unknown.append(s)
+                if unknown:
+                    if time.time() > deadline:
+                        return      # budget exhausted: unknown variants count as passing, shrinking stops here
+                    state["compiled"] += len(unknown)
+                    self.check_singles(unknown, stc, "shr%d" % tu["idx"])
+                    f = failing(fns)
+            if f is not None:
+                state["last"] = f[0]
+                raise _PropertyFailed("function fails: " + f[1]["detail"])
 
         hyp_run(self.strategy(tu), derive_seed(self.seed, tu["idx"]), test, shrink=True)
         self.labels["shrink_candidates_compiled"] += state["compiled"]
@@ -387,6 +404,18 @@ class Engine:
             f.write(src)
         return path, checks
 
+    def confirm_alone(self, s, tc, tag):
+        """Re-emit s alone with the real flags; True when it fails by itself."""
+        key = (G.canon(s), tc.key())
+        before = self.cache.pop(key, None)
+        self.check_tu([s], tc, "confirm%s_%d" % (tag, self.next_uid()))
+        v = self.cache.get(key)
+        if v and v["status"] in ("fail", "abort"):
+            return True
+        if before is not None:
+            self.cache[key] = before
+        return False
+
     def handle_failures(self, tus):
         failing = []
         for tu in tus:
@@ -394,35 +423,41 @@ class Engine:
             if bad:
                 failing.append((tu, bad))
         self.labels["failing_functions"] += sum(len(b) for _, b in failing)
-        budget = 60 if self.tier == "quick" else 300
+        budget = 45 if self.tier == "quick" else 240
         max_files = 4
+        reported = set()
         for n, (tu, bad) in enumerate(failing):
             if self.nfail_files >= max_files:
                 break
             tc = tu["tc"]
-            target = None
+            cands = []
             if n < 2:
-                target = self.shrink(tu, budget)
+                t = self.shrink(tu, budget)
+                if t is not None:
+                    cands.append(t)
+            cands.append(bad[0])
+            target = None
+            for c in cands:
+                # the single-function re-emission must fail by itself (real flags) to be a valid replay
+                if self.confirm_alone(c, tc, str(tu["idx"])):
+                    target = c
+                    break
             if target is None:
-                target = bad[0]
-            # the single-function re-emission must fail by itself to be a valid replay
-            key = (G.canon(target), tc.key())
-            before = self.cache.get(key)
-            self.cache.pop(key, None)
-            self.check_tu([target], tc, "confirm%d_%d" % (tu["idx"], self.next_uid()))
-            v = self.cache.get(key)
-            if not v or v["status"] not in ("fail", "abort"):
                 # fails only in the company of the other functions: keep the whole TU as the replay
-                self.cache[key] = before
+                v = self.verdict(bad[0], tc)
                 src, _ = G.emit_tu(tu["fns"], title="whole TU (function does not fail alone)", support_include=inline_support(), std=tc.std)
                 self.nfail_files += 1
                 path = os.path.join(self.faildir, "p_fail.C09.%d.txt" % self.nfail_files)
-                msg = before["detail"] if before else "failure"
+                msg = v["detail"] if v else "failure"
                 with open(path, "w") as f:
                     f.write("# engine=P prop=C09\n# compiler=%s std=%s\n# failing check: %s\n# seed=%d salt=%d\n" % (tc.compiler, tc.std, G_one_line(msg), self.seed, self.salt))
                     f.write(src)
                 self.violations.append((path, "TU %d: %s" % (tu["idx"], msg)))
                 continue
+            k = (G.canon(target), tc.key())
+            if k in reported:
+                continue
+            reported.add(k)
             path, checks = self.write_fail(target, tc, "failure")
             self.violations.append((path, "%s  [%s %s]  failing: %s" % (G.render(target), tc.compiler, tc.std, checks)))
 
